@@ -699,6 +699,7 @@ func (p *Parser) parseRawStatement() (*ast.RawStatement, error) {
 		return nil, NewRangeParseError(p.curToken, p.peekToken, "raw statement must begin with a backtick character '`'")
 	}
 
+	statement.ValueToken = p.curToken
 	statement.Value = p.curToken.Literal
 	return statement, nil
 }
